@@ -54,7 +54,7 @@ for _a, _b in itertools.permutations([un_camel(n).lower() for n in POOL], 2):
 
 @st.composite
 def group(draw, name, in_class=False):
-    kind = draw(st.sampled_from(["overload", "overload", "overload", "template", "generic"] if not in_class
+    kind = draw(st.sampled_from(["overload", "overload", "overload", "template", "generic", "ctemplate"] if not in_class
                                 else ["overload"]))
     g = dict(name=name, kind=kind, decls=[], nsig=0, ngeneric=1, supplied=[], has_default=False)
     if kind == "overload":
@@ -84,6 +84,16 @@ def group(draw, name, in_class=False):
             d["decl"] = "void %s(%s)" % (name, ", ".join(params))
             g["decls"].append(d)
             g["nsig"] += 1 + nd
+    elif kind == "ctemplate":
+        # templates.rst: a class template with its instantiations; every instantiation is a class of its own
+        # (C_name_scope <Class>_<type>_), in whatever namespace the template is declared
+        insts = draw(st.lists(st.sampled_from(["int", "double", "long"]), min_size=1, max_size=2, unique=True))
+        g["cls"] = "Stack" + name[:3].capitalize()
+        g["insts"] = insts
+        g["decls"].append({"decl": "template<typename T> class " + g["cls"],
+                           "cxx_template": [{"instantiation": "<%s>" % t} for t in insts],
+                           "declarations": [{"decl": "void %s(T v)" % name}]})
+        g["nsig"] = len(insts)
     elif kind == "template":
         insts = draw(st.lists(st.sampled_from(["int", "double", "long", "float"]), min_size=1, max_size=2, unique=True))
         lst = []
@@ -98,18 +108,22 @@ def group(draw, name, in_class=False):
         g["nsig"] = len(insts)
     else:
         nd = draw(st.integers(0, 1))
-        params = ["double arg"] + ["int d0 = 1"][:nd]
+        # fortran.rst "Scalar and Array Arguments": the variants may change the rank instead of the type; Shroud
+        # then writes one more C entry point per signature for the array form
+        rankchange = draw(st.booleans())
+        params = ["double arg" if not rankchange else "int *arg"] + ["int d0 = 1"][:nd]
         gl = []
-        for t in ("float", "double"):
-            e = {"decl": "(%s arg)" % t}
+        for t in (("float", "double") if not rankchange else ("int *", "int *RANK")):
+            e = {"decl": "(%s arg)" % t} if not rankchange else {"decl": "(int *arg%s)" % ("+rank(1)" if "RANK" in t else "")}
             if draw(st.integers(0, 2)) == 0:
-                s = "_" + draw(st.sampled_from(["f", "r4", "real", "g"])) + t[0]
+                s = "_" + draw(st.sampled_from(["f", "r4", "real", "g"])) + (t[0] if not rankchange else ("a" if "RANK" in t else "s"))
                 e["function_suffix"] = s
                 g["supplied"].append(s)
             gl.append(e)
         g["decls"].append({"decl": "void %s(%s)" % (name, ", ".join(params)), "fortran_generic": gl})
         g["nsig"] = 1 + nd
         g["ngeneric"] = 2
+        g["cextra"] = 1 if rankchange else 0
         g["has_default"] = bool(nd)
     return g
 
@@ -292,10 +306,21 @@ def judge(lib, files):
     claimed = set()
     for g in lib["groups"]:
         scope = g["scope"]
+        if g["kind"] == "ctemplate":
+            for t in g["insts"]:
+                want = prefix + "".join(x + "_" for x in scope) + "%s_%s_" % (g["cls"], t) + un_camel(g["name"])
+                n = plain.count(want)
+                claimed.add(want)
+                if n != 1:
+                    problems.append(("c-entry-count:ctemplate",
+                                     "method %s of %s<%s> in scope %s: %d C entry points named %s (all: %s)"
+                                     % (g["name"], g["cls"], t, "::".join(scope) or "(library)", n, want,
+                                        [p for p in plain if un_camel(g["name"]) in p])))
+            continue
         stem = prefix + "".join(s + "_" for s in scope) + un_camel(g["name"])
         mine = [p for p in plain if p.startswith(stem) and suffix_ok(p[len(stem):], g["supplied"])]
         claimed.update(mine)
-        if len(mine) != g["nsig"] or len(set(mine)) != len(mine):
+        if len(mine) != g["nsig"] * (1 + g.get("cextra", 0)) or len(set(mine)) != len(mine):
             problems.append(("c-entry-count:%s" % g["kind"],
                              "%s in scope %s has %d callable signatures but %d C entry points named %s* : %s"
                              % (g["name"], "::".join(scope) or "(library)", g["nsig"], len(mine), stem, mine)))
@@ -351,6 +376,8 @@ def judge(lib, files):
                 problems.append(("%s-table-duplicate" % which, "%s table %s registers %s more than once" % (which, key[1], d)))
         allentries = [x for v in tabs.values() for x in v]
         for g in lib["groups"]:
+            if g["kind"] == "ctemplate":
+                continue
             # a template with a single instantiation is registered under name + template suffix
             n = len([x for x in allentries if x == g["name"] or
                      (x.startswith(g["name"]) and suffix_ok(x[len(g["name"]):], g["supplied"]))])
